@@ -41,6 +41,10 @@ def gen(rng, tier):
         spec = C.maybe_history(rng, spec, 0.8, reload_prob=0.7)
     else:
         spec = C.maybe_history(rng, spec, 0.3)
+    h_ = spec.get("history")
+    if h_ is not None and rng.random() < 0.4:
+        # cut off while tasks hold resources, then run again with the state reset and the logs kept
+        h_["state"], h_["log"], h_["k"] = True, False, rng.randint(1, 5)
     spec = C.maybe_from_json(rng, spec)
     if spec.get("history") is None and not spec.get("from_json") and rng.random() < 0.06:
         # freshly built objects simulated without the state initialisation (a hand-prepared in-progress project)
